@@ -111,6 +111,61 @@ xs, rr := append(xs[:1:1], 7), 3
 *p0 += rr
 YIELD(xs[0]*10 + len(xs))
 RETNIL`, "partial-redeclaration"),
+		G("scope-same-variable-partially-redeclared-before-and-after-a-yield", `
+x := 1
+get := func() int { return tr.R(1, x) }
+x, a1 := tr.V(2, 2), 3
+YIELD(get()*10 + a1)
+x, a2 := tr.V(3, 4), 5
+YIELD(get()*100 + a2 + x)
+x, a3 := x+1, 6
+YIELD(get()*1000 + a3 + x)
+{
+	y := 1
+	gety := func() int { return tr.R(4, y) }
+	y, b1 := 2, 3
+	if tr.B(5) {
+		YIELD(gety() + b1)
+	}
+	y, b2 := y*10, 4
+	YIELD(gety()*10 + b2 + y)
+}
+RETNIL`, "partial-redeclaration"),
+		G("scope-partial-redeclaration-after-yield-in-case-clauses", `
+switch tr.N(1, 2) {
+case 0:
+	x := 1
+	get := func() int { return tr.R(2, x) }
+	YIELD(x)
+	x, a1 := x+10, 1
+	YIELD(get()*10 + a1 + x)
+default:
+	x := 2
+	p := &x
+	YIELD(x)
+	x, a2 := x+20, 2
+	YIELD(*p*10 + a2 + x)
+}
+switch v := any(tr.V(3, 7)).(type) {
+case int:
+	get := func() int { return tr.R(4, v) }
+	YIELD(v)
+	v, a3 := v+100, 3
+	YIELD(get()*10 + a3 + v)
+}
+ch := make(chan int, 1)
+ch <- 5
+y := 0
+gety := func() int { return tr.R(5, y) }
+func() {
+	select {
+	case y = <-ch:
+	}
+}()
+YIELD(gety())
+y, a4 := y+1, 4
+YIELD(gety()*10 + a4 + y)
+RETNIL`, "partial-redeclaration"),
 		G("scope-partial-redeclaration-after-yield", `
 a := 1
 get := func() int { return tr.R(1, a) }
